@@ -202,6 +202,16 @@ func runTick(seed int64, n int, dir string) {
 					}
 				}
 			}
+			negative := false
+			if g.Intn(12) == 0 { // negative and zero sqrt prices: their square is a perfectly valid price
+				if g.Intn(6) == 0 {
+					sp = big.NewInt(0)
+				} else {
+					sp = new(big.Int).Neg(sp)
+				}
+				negative = true
+				o.Count("class.sp2t.non-positive")
+			}
 			var tk int64
 			var e2 error
 			ok := catch(func() { tk, e2 = clmath.CalculateSqrtPriceToTick(bd(sp)) })
@@ -212,7 +222,15 @@ func runTick(seed int64, n int, dir string) {
 			line := fmt.Sprintf("tick sp2t %s", sp)
 			o.Emit(line, obs, true)
 			o.Count("op.sp2t")
-			if ok && e2 == nil {
+			if ok && e2 == nil && negative {
+				// no bucket contains a non-positive sqrt price
+				o.Fail("sp2t:non-positive-accepted", line+fmt.Sprintf(" -> %d", tk))
+			} else if ok && e2 == nil {
+				// square-root prices below the swap-reachable range are rejected: the candidate tick is checked against
+				// MinCurrentTick and corrected by at most one (Props/C14RoundTrip: below_range_witness is the one-tick band)
+				if tk < tf.minInit-2 {
+					o.Fail("sp2t:below-swap-reachable-range-accepted", line+fmt.Sprintf(" -> %d", tk))
+				}
 				// bucket containment: sp(tk) <= sp and (sp < sp(tk+1) or tk == MaxTick)
 				lo, err := t2sp(tk)
 				if err != nil || lo.Cmp(sp) > 0 {
